@@ -3,7 +3,7 @@ from . import progs
 
 SVC_GRID = [0, 0, 0.25, 0.5, 1.0, 1.5, 2.0]
 INT_GRID = [0.5, 1.0, 2.0]
-GAP_GRID = [0, 0, 0.25, 0.5, 1.0, 1.0, 3.0]
+GAP_GRID = [0, 0, -1, -2, 0.25, 0.5, 1.0, 1.0, 3.0]      # negative: that many loop turns at the same virtual instant
 
 SYNC_POOL = ['map', 'map', 'filter', 'accumulate', 'unique', 'sliding_window', 'partition', 'partition_unique',
              'pluck', 'starmap', 'flatten', 'union', 'zip', 'combine_latest', 'zip_latest', 'slice']
